@@ -12,17 +12,17 @@ CHECKS = {
              "and aligned: every emitted component is accepted at that point (position or tag dispatch) with the same universal kind, an accepted tag, the same "
              "dataclass field on both sides, inverse conversions, omission <=> decoder default; field coverage; protocolOp/choice dispatch; exact consumption of one "
              "outer SEQUENCE; writers pure; writer tags constant; no post-decode mutation except two reviewed injections; the reader primitives advance by exactly what was "
-             "validated and agree on the reader state they reset. Value equality and primitive arithmetic are not decided.",
+             "validated and agree on the reader state they reset. Value equality and primitive arithmetic are not decided. Also (rounds 3-4): a mode switch of the primitive codec on one side only; members allocated without a value written as themselves; fields written as held (no filtered/sliced copy); the constructed-value flush passes the stored tag and the octets untouched.",
         note="Reader/writer shapes followed: positional reads, sub-readers, while-reader repetition, tag dispatch decided by a (class, number) set algebra, optional-by-peek, "
              "guard clauses, private helpers that take the reader/writer (predicates, header-returning, list/tuple-returning); an unknown shape is an ANALYSIS-ERROR "
-             "for that class, never a verdict. 32 sub-agent refactorings of the code base leave the check silent (DESIGN.md 0b, 10).",
+             "for that class, never a verdict. Spellings are normalised first (sa/desugar.py: match, constant-table loops, generators, walrus, carriers). 110 of 113 behaviour-preserving variants leave every check silent; three table-interpreting decoders are an ANALYSIS-ERROR here (DESIGN.md 0d, 10).",
         ref="DESIGN.md section 5 C01, section 4 Engine B"),
     "C03": dict(
         technique="TLV writer-grammar extraction compared with an independent RFC 4511 / RFC 2696 table",
         text="Decides the TLV STRUCTURE of everything the writers can emit: tag class, number and primitive/constructed form, universal kind, order, OPTIONAL/DEFAULT "
              "handling and field correspondence of every component of the 9 messages, 10 filter alternatives, 2 credential choices and the control forms, against a "
              "table transcribed from the RFC (not from the code). One known finding (UnbindRequest constructed bit, pinned by tests). Minimal integer/length octets "
-             "(arithmetic) and SIZE constraints are not decided.",
+             "(arithmetic) and SIZE constraints are not decided. Also: the named numbers of the ENUMERATED types (resultCode, scope, derefAliases) against the RFC; the constructed-value flush; hand-built INTEGER content fits.",
         note="Trusted: the RFC transcription in sa/tlvcheck.py (DESIGN.md Appendix A); asn1.py's primitive writers (range safety and constants under C07).",
         ref="DESIGN.md section 5 C03, Appendix A"),
     "C04": dict(
@@ -30,7 +30,7 @@ CHECKS = {
         text="NECESSARY CONDITIONS for the four encoding freedoms: (1) one header routine, none of whose rejections depends on the number of length octets or on "
              "minimality; (2) BOOLEAN truth is content != 00; (3) every DEFAULT component has a real reader of its own kind; (4) in every SEQUENCE reader the tail is "
              "tag-dispatched with unknown tags skipped and no raise is reached only while a reader still holds data. Equality of values decoded from alternative forms (multi-octet length "
-             "arithmetic) is not decided.",
+             "arithmetic) is not decided. Also: tag-naming enums in the header routine cover every assigned value; positional (untagged) components are not read inside a trailing-element loop; no implicit raiser in the header routine left undischarged; no rejection under a test of the header's octet counts (tag_length / whole-header equality).",
         note="Same extractor and trusted base as C01.",
         ref="DESIGN.md section 5 C04"),
     "C02": dict(
@@ -39,7 +39,7 @@ CHECKS = {
              "advances only after validation and by exactly header+content, T1 no upper-bounded slice of the input without a dominating length fact, "
              "L3 residue discipline on every extracted path of receive (who may write and who may read the pending-bytes buffer), L4 decode-order append and an "
              "independent processing loop (over receive and the decode helpers it hands the reader to), L5 copy-out, L6 sibling agreement on reader state. "
-             "Necessary conditions; value equality across chunkings is not decided.",
+             "Necessary conditions; value equality across chunkings is not decided. Also: ASN1Reader truth is exactly 'octets remain'.",
         note="Trusted: Python slicing/bytes semantics; the induction over chunks; receive keeps today's two-phase shape (an early return that is not "
              "'no new data' is reported).",
         ref="DESIGN.md section 5 C02"),
@@ -48,7 +48,7 @@ CHECKS = {
         text="Decides that the set of exception classes that can leave LDAPSession/LDAPClient/LDAPServer.receive is {ProtocolError}: explicit raises, a "
              "catalogue of implicit raisers (index, key, struct, codec, enum conversion, tuple unpacking, None attribute, byte range) each discharged by "
              "dominating guard facts or reported, class-hierarchy call resolution, recursion cycles; plus closure (every ProtocolError path ends CLOSED) "
-             "and well-formed construction of the attached unbind / notice of disconnection, including encodability of the error text.",
+             "and well-formed construction of the attached unbind / notice of disconnection, including encodability of the error text. BufferError from resizing a bytearray that a live memoryview exports, exception-class hooks (__init__/__post_init__/_missing_) and per-direction codec error handlers are part of the catalogue.",
         note="Sound over-approximation for the constructs catalogued; user-registered types are outside the claim; len() <= sys.maxsize; CPython's "
              "UnicodeDecodeError/ValueError message texts are ASCII.",
         ref="DESIGN.md section 5 C05, Appendix D"),
@@ -56,7 +56,7 @@ CHECKS = {
         technique="exception-provenance dataflow (which reader a NotEnougData was raised on) over the resolved call graph",
         text="Decides that every NotEnougData reaching a 'wait for more bytes' handler in receive was raised by a read on the stream-level reader itself, "
              "which by L1/L2 (also checked) has not advanced; interior readers' NotEnougData must be converted before. Also: no early return with "
-             "pending bytes, stream reader used only for validated reads.",
+             "pending bytes, stream reader used only for validated reads. Also: the escape set of receive is {ProtocolError}; a wrong identifier is rejected before waiting for content; no truth test on a decoded message whose class defines __bool__/__len__.",
         note="Trusted: the counting argument from the lemmas to the property; receive's decode loop shape.",
         ref="DESIGN.md section 5 C06"),
     "C07": dict(
@@ -65,7 +65,7 @@ CHECKS = {
              "struct.unpack fed one octet), (b) no over-consumption / no silent clamping, (c) agreement of the bit-field constants the writer and reader "
              "use (tag-form threshold 31, length-form threshold 128, 7-bit continuation, class/constructed bit positions, boolean octets), (d) no primitive mutates a "
              "buffer it was handed, reader methods agree on the state they reset. The arithmetic "
-             "equalities of the property (minimal two's complement, denoted value) are NOT decided: no sound static argument in reach.",
+             "equalities of the property (minimal two's complement, denoted value) are NOT decided: no sound static argument in reach. Also: hand-built INTEGER/ENUMERATED content fits its octets; ASN1Reader construction cannot fail; non-advancing reader methods keep no state; the constructed-value flush.",
         note="Caller preconditions on user-supplied tags (class in 0..3, number >= 0) are assumed for the writer; the library's own tags are checked constant under C05.",
         ref="DESIGN.md section 5 C07"),
     "C08": dict(
@@ -73,7 +73,7 @@ CHECKS = {
         text="Decides the lifecycle machine on the extracted transition relation: every path of every public entry of the three "
              "session classes from each pre-state is enumerated from the source (self/super calls inlined through the MRO) and "
              "rules R1-R12 (CLOSED absorbing, BINDING entry/exit/gate, closing events, refused sends keep the state, only "
-             "documented transitions) are checked on all of them.",
+             "documented transitions) are checked on all of them. Also (reader lemma): a wrong identifier is rejected before the incomplete-content exit.",
         note="Trusted: Python semantics of the interpreted constructs; loops analysed for 0/1 iteration (rules are per effect); "
              "calls leaving _session.py are opaque and may raise. BEFORE_OPEN => empty id sets is itself checked (I0).",
         ref="DESIGN.md section 5 C08, Appendix C"),
@@ -81,19 +81,19 @@ CHECKS = {
         technique="typestate path summaries + who-may-write census of the message counter",
         text="Decides counter discipline (only += positive literal), stamping (id read from the counter is the id in the bytes, the id returned and the id "
              "recorded outstanding, recorded only after the send), and the acceptance/rejection table of incoming messages by (class, id in search set, "
-             "id in outstanding set) on every extracted path; implicit KeyError paths are discharged by the inductive invariant search <= outstanding.",
+             "id in outstanding set) on every extracted path; implicit KeyError paths are discharged by the inductive invariant search <= outstanding. Also: the envelope's first component is written and read by the plain INTEGER codec (no mode switch, no unsigned shortcut).",
         note="Same trusted base as C08.",
         ref="DESIGN.md section 5 C09"),
     "C10": dict(
         technique="effect-ordering rules on typestate path summaries",
         text="Decides on every path of every sending entry: a path that raises (refusal, encoding failure, implicit KeyError) has queued no bytes (E1), "
-             "refusals are LDAPError (E2), every server response is queued under a live fact that its id is outstanding (E3), final responses retire the id (E4).",
+             "refusals are LDAPError (E2), every server response is queued under a live fact that its id is outstanding (E3), final responses retire the id (E4). Also: only the receive path adds to the server's outstanding set.",
         note="Same trusted base as C08; exceptions from encoding caller-supplied values are argument errors covered by E1 only.",
         ref="DESIGN.md section 5 C10"),
     "C11": dict(
         technique="sibling cross-check of send-side and receive-side path summaries",
         text="NECESSARY CONDITION ONLY: mirror agreement of state successor and outstanding/search set changes between the sender and the receiver of each of "
-             "12 message kinds. Joint histories, delivery schedules and value equality across the pipe are not decided (other technique families).",
+             "12 message kinds. Joint histories, delivery schedules and value equality across the pipe are not decided (other technique families). Also: reader truth is 'octets remain'; residue discipline of receive; no argument replaced through a truth test on a falsy-capable dataclass value.",
         note="Same trusted base as C08; precondition that responses match their request kind, as in the property.",
         ref="DESIGN.md section 5 C11"),
     "C12": dict(
@@ -109,7 +109,7 @@ CHECKS = {
              "language is accepted by the un-escaper's patterns; hex digits are decoded strictly; the escape pattern is one unconditional byte class. These make "
              "un-escape(escape(v)) = v. PARSER-SIDE NECESSARY CONDITIONS: structure is read off the raw text (nothing that is definitely un-escaped is cut at '*'), "
              "a presence filter is chosen exactly for the raw value '*', parse results are not cached/shared. That the parser rebuilds the same TREE in general "
-             "(offset arithmetic, C14) is not decided.",
+             "(offset arithmetic, C14) is not decided. Also: markers compared exactly (no case folding, no keyword by prefix); empty assertion values accepted; __str__ pure; no rejection by character count.",
         note="Trusted: re._parser dialect; RFC 4515 special bytes transcribed in the checker.",
         ref="DESIGN.md section 5 C13"),
     "C15": dict(
@@ -117,7 +117,7 @@ CHECKS = {
         text="Decides totality of LDAPFilter.from_string up to the listed undecided window-index sites (escape set is FilterSyntaxError), a dimension discipline "
              "(absolute position vs relative extent) on every FilterSyntaxError and recursive call, and that every attribute/rule reaching a constructor passed the "
              "attribute pattern, whose language is compared with RFC 4512 by automata inclusion (IGNORECASE modelled with the engine's own folding rule); (offset, length) "
-             "pairs name one span. Round trip of accepted results is not decided.",
+             "pairs name one span. Round trip of accepted results is not decided. Also: units of the span (octets vs characters, also inside the error constructor); validation through predicate helpers counts only for what they imply; strict escape decoding.",
         note="IndexError on the scanners' window view needs relational offset arithmetic and is listed as undecided in the evidence, never alarmed.",
         ref="DESIGN.md section 5 C15"),
     "C16": dict(
@@ -125,7 +125,7 @@ CHECKS = {
         text="NECESSARY CONDITIONS of the schema text round trip: escape agreement between _encode_qdstring, the RFC dstring grammar and the reader's un-escape pattern; "
              "single-pass un-escaping (no order-dependent replace chain); the keyword order each __str__ can emit is accepted by the description pattern; every field is "
              "written and parsed; everything the encoder can emit is a qdstring of the library's own fragment; fields that may be 0 are tested with `is not None`; the "
-             "extension parser searches no delimiter across quoted values; parse results are fresh. Equality of the whole definition beyond these is not decided.",
+             "extension parser searches no delimiter across quoted values; parse results are fresh. Equality of the whole definition beyond these is not decided. Also: the definition text is matched as given (no rewriting before the pattern).",
         note="Trusted: re._parser dialect; RFC 4512 dstring transcription.",
         ref="DESIGN.md section 5 C16"),
     "C17": dict(
@@ -135,14 +135,14 @@ CHECKS = {
              "group-name existence, single-pass un-escaping and absence of exponential backtracking; and, for the hand-written cutting after the regex, two typestate "
              "analyses: every positional inspection acts on text that cannot start with a space (SP = 1*SPACE is tolerated everywhere - this found defect F15), and the "
              "extension parser looks for no delimiter but the quote while quoted text may lie ahead. Full equality of the extracted FIELDS with what the grammar denotes "
-             "is not decided.",
+             "is not decided. Also: the definition text is matched as given; constructor hooks do not reject combinations of independent optional keywords.",
         note="Trusted: the RFC transcription in sa/rx/rfc.py (DESIGN.md Appendix B); re._parser dialect.",
         ref="DESIGN.md section 5 C17, Appendix B"),
     "C18": dict(
         technique="automata-theoretic ambiguity analysis of every regular expression recovered by constant folding",
         text="Decides for all regular expressions of the package (10 distinct, 12 use sites): no exponential ambiguity with a constructed failing witness family "
              "(product-SCC criterion on the position multigraph with sre's empty-iteration rule); path-based progress of every scanner loop and of every "
-             "`while <reader>:` loop of the decoders (each path to the back edge consumes), and no re-parse-on-failure. Wall-clock constants and exact polynomial degree are not decided.",
+             "`while <reader>:` loop of the decoders (each path to the back edge consumes), and no re-parse-on-failure. Wall-clock constants and exact polynomial degree are not decided. Also: no double descent inside a recursive group of functions; error text does not double per nesting level.",
         note="Trusted: re._parser as the dialect; the backtracking cost model (number of distinct runs). Patterns are never compiled or matched.",
         ref="DESIGN.md section 5 C18, section 4 Engine E"),
     "C19": dict(
@@ -207,10 +207,11 @@ def main():
                  "2 ANALYSIS-ERROR (the analysis could not classify a construct it needs; never a verdict). The rules are exhaustive over the code, so the "
                  "thorough tier evaluates the same rules and additionally exercises the checker itself on every seeded variant under /verif/seeded (breaking "
                  "variants it is recorded to report, behaviour-preserving variants it must stay silent on), each applied to a scratch copy of the current working "
-                 "tree; that self-test is written to the evidence and never changes the verdict. 17 genuine defects were repaired by fix: commits in /repo "
-                 "(6de8880..2e64ae9; the last one, F15, was found by the C17 typestate analysis) and 2 are known findings pinned by tests; see "
-                 "/verif/known_findings.txt and DESIGN.md sections 0, 0b, 2 and 10. 155 seeded variants are kept under /verif/seeded (107 property-breaking, all "
-                 "reported; 48 behaviour-preserving, all silent).",
+                 "tree; that self-test is written to the evidence and never changes the verdict. 18 genuine defects were repaired by fix: commits in /repo "
+                 "(6de8880..7a61bad; F15 was found by the C17 typestate analysis, F16 after Engine C's codec catalogue was corrected) and 2 are known findings "
+                 "pinned by tests; see /verif/known_findings.txt and DESIGN.md sections 0-0d, 2 and 10. 329 seeded variants are kept under /verif/seeded: 216 "
+                 "property-breaking (4 rounds of independent sub-agents plus the 18 reverts of fix commits), all reported by at least one check; 113 "
+                 "behaviour-preserving, 110 silent in every check and 3 (table-interpreting decoders) an ANALYSIS-ERROR in C01/C04, none a VIOLATION.",
     }
     with open(os.path.join(VERIF, "MANIFEST.json"), "w") as f:
         json.dump(man, f, indent=1)
